@@ -271,7 +271,9 @@ Proof.
   { intros e0 H. unfold decodeToken. rewrite H. reflexivity. }
   assert (Hnn : forall enc0, (zlen enc0 =? 0) = false -> decodeToken (prot_open key) unmarshal enc0 <> DNil).
   { intros e0 H. unfold decodeToken. rewrite H. destruct (protDecode (prot_open key) e0); [|discriminate].
-    destruct (unmarshal l) as [[? rest]|]; [|discriminate]. destruct (zlen rest =? 0); discriminate. }
+    destruct (unmarshal l) as [[r0 rest]|]; [|discriminate]. destruct (zlen rest =? 0); [|discriminate].
+    (* (since /repo fix 5b79229 a Retry record with connection IDs longer than 20 bytes is a decoding error) *)
+    destruct (r_isRetry r0 && ((sl_MaxConnIDLen <? zlen (r_odcid r0)) || (sl_MaxConnIDLen <? zlen (r_rscid r0)))); discriminate. }
   destruct (Z.ltb_spec (zlen (invq s)) saInvalidTokenQueueCap); [|lia].
   destruct (Z.ltb_spec (zlen (retryq s)) saRetryQueueCap); [|lia].
   destruct (zlen enc =? 0) eqn:Ez.
